@@ -477,6 +477,43 @@ def main(run):
                 c["dist"], "relative" if c["relative"] else "absolute", c["center"], c["width"], c["npts"], c["nsigmas"], c["lb"], c["ub"], bad), desc))
         else:
             distinct.add((c["dist"], c["relative"], c["cut"], c["npts"] > 1, len(x)))
+    # ---- through the model layer: the mesh a calculator builds for a dispersed parameter (direct_model.get_mesh) is
+    # the distribution cut at the limits DECLARED in the model's parameter table - for the numbered entries of a vector
+    # parameter (thickness1..n) those of the vector's row
+    from sasmodels.core import load_model_info
+    from sasmodels.direct_model import get_mesh
+    stats["model_layer"] = 0; stats["model_layer_vector_entries"] = 0
+    mnames = ["sphere", "cylinder", "core_shell_cylinder", "core_multi_shell", "onion", "spherical_sld"] + (["multilayer_vesicle", "hollow_cylinder", "lamellar_stack_caille", "parallelepiped"] if thorough else [])
+    for mname in mnames:
+        minfo = load_model_info(mname)
+        declared = {}
+        for kp_ in minfo.parameters.kernel_parameters:
+            declared[kp_.id] = kp_
+        cps = [cp for cp in minfo.parameters.call_parameters if cp.polydisperse and cp.type == "volume"]
+        for cp in (cps if thorough else rng.sample(cps, min(len(cps), 4))):
+            base = declared.get(cp.id) or declared.get(cp.id.rstrip("0123456789"))
+            if base is None:
+                continue
+            lo_, hi_ = base.limits
+            centre = cp.default if cp.default > 0 else rng.uniform(5.0, 50.0)
+            dist = rng.choice(["gaussian", "rectangle", "uniform", "boltzmann", "gaussian"])
+            pd_, ns_, n_ = rng.choice([0.5, 0.8, 1.2]), rng.choice([3.0, 4.0]), rng.choice([7, 12, 31])
+            pars_ = {cp.name: centre, cp.name + "_pd": pd_, cp.name + "_pd_n": n_, cp.name + "_pd_nsigma": ns_, cp.name + "_pd_type": dist}
+            mesh_ = get_mesh(minfo, pars_, dim="1d")
+            k_ = [c_.name for c_ in minfo.parameters.call_parameters].index(cp.name)
+            _, xv, wv = mesh_[k_]
+            xv, wv = np.asarray(xv, "d"), np.asarray(wv, "d")
+            xw, ww = weights.get_weights(dist, n_, pd_, ns_, centre, (lo_, hi_), cp.relative_pd)
+            evals += 1; stats["model_layer"] += 1; stats["model_layer_vector_entries"] += int(cp.id != base.id)
+            dsc = dict(model=mname, parameter=cp.name, declared_limits=[lo_, hi_], dist=dist, centre=centre, width=pd_, npts=n_, nsigmas=ns_, values=list(map(float, xv)))
+            if len(xv) and (xv.min() < lo_ or xv.max() > hi_):
+                run.add(Finding("C02:model-layer:limits", "%s: the mesh for %s (%s, centre %.4g, PD %.3g, %d points, %g sigma) reaches %.6g .. %.6g, outside the declared limits [%r, %r]" % (
+                    mname, cp.name, dist, centre, pd_, n_, ns_, xv.min(), xv.max(), lo_, hi_), dsc))
+            elif len(xv) != len(xw) or not np.allclose(xv, xw, rtol=1e-14, atol=0) or not np.allclose(wv, ww, rtol=1e-12, atol=0):
+                run.add(Finding("C02:model-layer:weights", "%s: the mesh for %s (%s) differs from the distribution cut at the declared limits [%r, %r]" % (mname, cp.name, dist, lo_, hi_),
+                                dict(dsc, expected_values=list(map(float, xw)))))
+            else:
+                distinct.add(("model-layer", mname, cp.name))
     # ---- correspondence, pass A: value grids from the Coq model
     traces = 0
     if not run.proof_broken():
